@@ -87,17 +87,6 @@ def d1(chk, prog, ks, ploidies):
                "cnvlib.call.do_call::thresholds default", dc.loc(), "cn would decrease just above the last default threshold")
 
 
-def provably_le(a, b):
-    a, b = T(a), T(b)
-    if same(a, b) or a.hi <= b.lo:
-        return True
-    # a is min[..., b]
-    for key, name in W.atoms.items():
-        if a.same(Term.sym(name)) and key[0] == "min" and any(k == b.key() for k in key[1:]):
-            return True
-    return False
-
-
 def d2(chk, prog):
     chk.clause("D2", "allelic split: cn1 + cn2 == cn, 0 <= cn1 <= cn, NaN exactly where BAF missing and cn > 0")
     fi = prog.fn("cnvlib.call.do_call")
